@@ -771,3 +771,36 @@ def coo_from_triple(vals, rows, cols, shape, fmt):
     m = COO(blocks, shape, fmt)
     m.dtype_kind = kind_of(vals)
     return m
+
+
+# ---------------------------------------------------------------------------------------------------------------------------------
+def same(a, b):
+    """semantic sameness of two values of the symbolic run -> (formula, decidable).
+    Identical objects are the same; two symbolic arrays / scalars are the same iff their values agree at a generic index (so a copy is
+    the same as its original, two different stub results are not).  Anything else (opaque stub objects) can only be compared by
+    identity: a mismatch there is not a semantic verdict (decidable=False)."""
+    if a is b:
+        return z3.BoolVal(True), True
+    if isinstance(a, SymArray) and isinstance(b, SymArray) and a.ndim == b.ndim and a.guard is None and b.guard is None:
+        g = [SI(FreshInt("same_g")) for _ in range(a.ndim)]
+        rng = [z3.And(x.e >= 0, x.e < SI.lift(n).e) for x, n in zip(g, a.shape)]
+        shp = [SI.lift(sa).e == SI.lift(sb).e for sa, sb in zip(a.shape, b.shape)]
+        return z3.And(*shp, z3.Implies(z3.And(*rng), eq(a.at(*g), b.at(*g)))), True
+    if isinstance(a, (SR, SC, SI)) and isinstance(b, (SR, SC, SI, int, float, complex)):
+        return eq(a, b), True
+    return z3.BoolVal(False), False
+
+
+def check_same(name, pairs, also=True, note="", extra=()):
+    """obligation 'these values are the same' (see same()); `also` = additional exact boolean side conditions"""
+    fs, dec = [], True
+    for a, b in pairs:
+        f, d = same(a, b)
+        fs.append(f)
+        dec = dec and d
+    if not also:
+        return check(name, z3.BoolVal(False), note=note)
+    if dec:
+        return check(name, z3.And(*fs) if fs else z3.BoolVal(True), note=note, extra=extra)
+    ok = all(z3.is_true(f) for f in fs)
+    return sym.check_terms(name, ok, note=note or "compared by identity only")
